@@ -58,6 +58,10 @@ CLAIMED = {
  "C15": dict(cat="proof", tech="Lean 4 proofs about EnsureBasePointerCalleeSaved + prologue machine + decide over regenerated/measured tables + correspondence + execution",
    text="bp_saved / bp_noframe_refused / bp_untouched_when_not_clobbered / C15: whenever a bound function writes any view of GP register 5 the pass either errors (NOFRAME) or leaves a frame > 0 for which the assembler's rule saves and restores BP (both the rule quoted in avo and the installed assembler's), and on a small prologue/epilogue machine the caller then sees the same BP; bp_any_view, zero-extension and pass-order facts by decide over regenerated tables; the assembler rule itself is measured on the full attribute x frame x call grid (Oracle/AsmBP) and tied by decide. Real passes compared exactly on generated functions (author-named BP views, allocator forced onto BP by pressure); compiled samples executed through a trampoline that observes the caller's BP.",
    note=TB + "Proof-partial: the assembler's prologue behaviour is measured on this host/toolchain, not proved; declared outputs are assumed to cover hardware writes (C04); no LEAVE/ENTER in avo's table."),
+
+ "C05": dict(cat="proof", tech="Lean 4 proofs about operand text (render/parse round trips, immediate interpretation) + Go assembler/objdump oracle judged in Lean",
+   text="parseOp_asm (every well-formed operand reads back from its printed text), number-format round trips for all integers and widths, line_roundtrip, asmImm_value_partial (the value the CPU uses equals the constant under the decidable guard ImmFits) with its negation proved at the F6 witness, build_first_match / build_operands_kept; register names and format verbs regenerated. Measured on every run: sampled instances of every opcode (thorough: every form x 12) are built by the real form table, printed by the real printer, assembled by go tool asm and decoded by objdump; the Lean acceptor compares mnemonic, registers, memory operand, access width and sign-extended immediate with the operands given.",
+   note=TB + "Proof-partial: the Go assembler's encoding is a measured oracle (binutils objdump as decoder). 18 classes of genuine divergence between what constructors accept and what the assembler does are listed as known findings (F6, F7, F5-ctor, F10-call-label, C05-*), each with a class regex."),
 }
 
 def main():
